@@ -398,6 +398,67 @@ func (w *World) observe(st *Step, pre map[*half]halfSnap) {
 		}
 		w.mu.Unlock()
 	}
+	/* ---- C04 with a stalled terminal (unbuffered operator channel): the
+	notices are handed over one at a time, whenever the operator's side
+	takes one, so they are counted over the whole history.  A Connect call
+	hands its notices over synchronously: once it has returned, they must
+	have been taken. ---- */
+	if p.has("C04") && 0 == p.OchCap {
+		for _, cl := range st.Notices {
+			if !cl.Plain {
+				w.stalledNotices = append(w.stalledNotices, cl.Line)
+			}
+		}
+		if w.m.expReady {
+			w.cumReady++
+		}
+		if w.m.expGone {
+			w.cumGone++
+		}
+		count := func(f func(string) bool) (n int) {
+			for _, l := range w.stalledNotices {
+				if f(l) {
+					n++
+				}
+			}
+			return n
+		}
+		nReady := count(func(l string) bool { return strings.HasSuffix(l, iobroker.ShellReadyMessage) })
+		nGone := count(func(l string) bool { return strings.HasSuffix(l, iobroker.ShellDisconnectedMessage) })
+		w.mu.Lock()
+		allReturned := true
+		for _, a := range w.attempts {
+			if !a.returned {
+				allReturned = false
+			}
+		}
+		for _, a := range w.attempts {
+			if "io" == a.kind {
+				continue
+			}
+			for _, h := range a.halves {
+				want := fmt.Sprintf("[%s] %s connection closed", a.addr, dirT(h.dir))
+				n := count(func(l string) bool { return strings.HasPrefix(l, want) })
+				switch {
+				case n > 1:
+					w.violLocked("C04", fmt.Sprintf("stalled/closure-notice/%d-want-1", n), fmt.Sprintf(
+						"%s stream of a%d: %d closure notices reached the (slow) operator%s", h.dir, a.id, n, hist()))
+				case a.returned && h.everAttached && 1 != n:
+					w.violLocked("C04", fmt.Sprintf("stalled/closure-notice/%d-want-1", n), fmt.Sprintf(
+						"%s stream of a%d was attached, its Connect call has returned, and %d closure notices were ever handed to the (slow) operator%s", h.dir, a.id, n, hist()))
+				}
+			}
+		}
+		w.mu.Unlock()
+		if nReady > w.cumReady || (allReturned && nReady != w.cumReady) {
+			w.viol("C04", fmt.Sprintf("stalled/ready-notice/%d-want-%d", nReady, w.cumReady), fmt.Sprintf(
+				"%d shells became ready so far, the (slow) operator was handed %d ready notices (every Connect call returned: %v)%s", w.cumReady, nReady, allReturned, hist()))
+		}
+		if nGone > w.cumGone || (allReturned && nGone != w.cumGone) {
+			w.viol("C04", fmt.Sprintf("stalled/gone-notice/%d-want-%d", nGone, w.cumGone), fmt.Sprintf(
+				"%d shells ended so far, the (slow) operator was handed %d 'shell is gone' notices (every Connect call returned: %v)%s", w.cumGone, nGone, allReturned, hist()))
+		}
+	}
 	w.m.expReady, w.m.expGone, w.m.expPeer = false, false, nil
 
 	/* ---- C04: Do returns only when nothing is attached; nothing of an
